@@ -1,5 +1,7 @@
-"""C19 — sweep of public methods with their documented keyword options (preserve=, nozeros=, method=, recursive=,
-check=, builtins=, masked=, masked exponents of **): none may crash with AttributeError / NameError / RuntimeError /
+"""C19 — sweep of every public method, static constructor and class method of the nine classes that has optional
+parameters (found by introspection), called with every documented value of every option (the seven headline options
+preserve= nozeros= method= recursive= check= builtins= masked= also in combination; masked exponents of ** and other
+special cases by hand): none may crash with AttributeError / NameError / RuntimeError /
 UnboundLocalError / ZeroDivisionError or let a Warning class escape as an exception.  Oracle only (no Lean model)."""
 import inspect, itertools, warnings, operator
 import numpy as np
@@ -9,6 +11,8 @@ from polymath import Polynomial
 import c19_run as R
 
 KWNAMES = ('preserve', 'nozeros', 'method', 'recursive', 'check', 'builtins', 'masked')
+# values tried for an optional parameter, by its name (every documented value of the option, plus one bogus value
+# where the option is an enumeration); parameters not listed get values from the type of their default
 OPTVALS = {
     'preserve': [None, 't', ['t'], ('x',), {'t', 'x'}, [], ['zz']],
     'nozeros': [False, True],
@@ -17,10 +21,24 @@ OPTVALS = {
     'check': [True, False],
     'builtins': [None, True, False],
     'masked': [None, -99],
+    'axis': [None, 0, -1, (0,), 1, 5],
+    'axis1': [-1, 0], 'axis2': [0, -1], 'axes': [(0, 1), (1, 0)],
+    'readonly': [False, True], 'remask': [False, True], 'clip': [False, True], 'inclusive': [True, False],
+    'zeros': [True, False], 'value': [True, False], 'purge': [False, True], 'partials': [False, True],
+    'classes': [(), 'same', 'scalar'], 'dtype': [None, 'float', 'int'], 'out': [None], 'top': [None, 3],
+    'shift': [None, True, False], 'replace': [None, 7.], 'constant': [None, 1.], 'rank': [None, 0, 1],
+    'start': [0, 1, -1], 'norm': [1., 2., 0.], 'include_antimask': [False, True], 'retain_cache': [False, True],
+    'coerce': [True, False], 'op': ['', '+'], 'override': [False, True], 'angle': [None, 0.5], 'z': [0., 1.],
+    'length': [1., 2.], 'digits': [None, 6], 'item': [None], 'collapse': [False, True], 'broadcast': [False, True],
 }
 SWEEP_CLASSES = ('Scalar', 'Boolean', 'Vector', 'Vector3', 'Pair', 'Matrix', 'Matrix3', 'Quaternion', 'Polynomial')
-BAD = ('AttributeError', 'NameError', 'RuntimeError', 'UnboundLocalError', 'ZeroDivisionError', 'RecursionError')
-SKIP = {'as_readonly'}      # mutates shared class constants when called on them; covered by C08
+BAD = ('AttributeError', 'NameError', 'RuntimeError', 'UnboundLocalError', 'ZeroDivisionError', 'RecursionError',
+       'KeyError')
+# not swept: as_readonly/match_readonly freeze shared class constants (C08); the rest are low-level helpers that take
+# raw arrays / shapes rather than documented options
+SKIP = {'as_readonly', 'match_readonly', 'broadcast', 'broadcasted_shape', 'stack', 'is_real_number', 'is_one_true',
+        'is_one_false', 'or_', 'and_', 'set_pickle_digits', 'set_default_pickle_digits', 'set_pickle_reference',
+        'set_default_pickle_reference', 'fpzip_encode', 'fpzip_decode', 'combos', 'as_one_bool', 'mean_or_sum'}
 
 
 def all_classes():
@@ -54,13 +72,19 @@ VARIANTS = [([], False, False, False), ([3], True, True, False), ([2, 3], True, 
             ([0], False, False, False)]
 
 
+class _NoValue(Exception):
+    pass
+
+
 def required_value(name, obj, clsname):
-    """a value for a required positional parameter, chosen by its name; KeyError = method is skipped"""
+    """a value for a required positional parameter, chosen by its name; _NoValue = method is skipped"""
     shape = list(obj._shape_)
-    if name in ('arg', 'vector', 'pole', 'factor', 'value', 'arg2'):
-        if name == 'value':
-            return obj.wod * 0.5 if clsname != 'Boolean' else Scalar(1.)
-        return obj.wod if name != 'factor' else obj.wod
+    if name in ('arg', 'arg1', 'arg2', 'vector', 'vector1', 'vector2', 'pole', 'factor'):
+        return obj.wod
+    if name == 'value':
+        return obj.wod * 0.5 if clsname != 'Boolean' else Scalar(1.)
+    if name == 'matrix':
+        return Matrix3(np.eye(3))
     if name == 'mask':
         return np.zeros(shape, dtype=bool) if shape else False
     if name == 'key':
@@ -77,13 +101,63 @@ def required_value(name, obj, clsname):
         return 1
     if name == 'x':
         return Scalar(np.arange(3.) + 1)
-    if name in ('a', 'b', 'c'):
+    if name in ('a', 'b', 'c', 'angle', 'scalar', 'radius', 'longitude', 'ra', 'dec'):
         return Scalar(2.)
-    raise KeyError(name)
+    if name == 'units':
+        return None
+    if name in ('y', 'z'):
+        return Scalar(2.)
+    if name == 'fill':
+        return 1.
+    if name in ('lower', 'low', 'limit', 'match'):
+        return 1.
+    if name in ('upper', 'high'):
+        return 5.
+    if name in ('ai', 'aj', 'ak'):
+        return Scalar(0.25)
+    if name == 'deriv':
+        return obj.wod if clsname != 'Boolean' else Scalar(1.)
+    if name == 'derivs':
+        return {'u': obj.wod if clsname != 'Boolean' else Scalar(1.)}
+    if name == 'antimask':
+        return np.ones(shape, dtype=bool) if shape else True
+    raise _NoValue(name)
+
+
+_EULER = ['rzxz', 'sxyz', 'szyx', 'rxyx']                                    # documented axis codes
+PER_METHOD = {('to_euler', 'axes'): _EULER, ('from_euler', 'axes'): _EULER, ('from_euler_via_matrix', 'axes'): _EULER}
+
+
+def option_values(cn, pname, default, meth=None):
+    if (meth, pname) in PER_METHOD:
+        return list(PER_METHOD[(meth, pname)])
+    if pname in OPTVALS:
+        vals = list(OPTVALS[pname])
+        if isinstance(default, int) and not isinstance(default, bool) and pname.startswith('axis'):
+            vals = [default, 0, -1, 5]
+        return vals
+    if isinstance(default, bool):
+        return [True, False]
+    if default is None:
+        return [None]
+    if isinstance(default, (int, float)):
+        return [default, default + 1]
+    return [default]
+
+
+def resolve(cn, pname, v):
+    """symbolic option values"""
+    if pname == 'classes':
+        if v == 'same':
+            return (all_classes()[cn],)
+        if v == 'scalar':
+            return (Scalar,)
+    return v
 
 
 def methods():
-    """(class name, method name, [keyword names present], [required positional names])"""
+    """(class name, method name, is_static, [(optional parameter, n values)], [required positional names])
+    for every public callable of the swept classes that has at least one optional parameter"""
     out = []
     for cn in SWEEP_CLASSES:
         c = all_classes()[cn]
@@ -91,21 +165,26 @@ def methods():
             if name.startswith('_') or name in SKIP:
                 continue
             st = inspect.getattr_static(c, name)
-            if isinstance(st, (property, staticmethod, classmethod)):
+            if isinstance(st, property):
                 continue
             f = getattr(c, name)
-            if not callable(f):
+            if not callable(f) or inspect.isclass(f):
                 continue
+            static = isinstance(st, (staticmethod, classmethod))
             try:
-                ps = list(inspect.signature(f).parameters.values())[1:]
+                ps = list(inspect.signature(f).parameters.values())
             except (TypeError, ValueError):
                 continue
-            kws = [p.name for p in ps if p.name in KWNAMES]
-            if not kws:
+            if not static:
+                ps = ps[1:] if ps and ps[0].name == 'self' else ps
+            opts = [(p.name, len(option_values(cn, p.name, p.default, name))) for p in ps
+                    if p.default is not inspect.Parameter.empty and p.kind in (p.POSITIONAL_OR_KEYWORD, p.KEYWORD_ONLY)
+                    and not p.name.startswith('_')]
+            if not opts:
                 continue
             req = [p.name for p in ps if p.default is inspect.Parameter.empty
                    and p.kind in (p.POSITIONAL_ONLY, p.POSITIONAL_OR_KEYWORD)]
-            out.append((cn, name, kws, req))
+            out.append((cn, name, static, opts, req))
     return out
 
 
@@ -150,33 +229,47 @@ def special(clsname, what, vi):
 
 
 def gen(rng, tier):
+    """per method and object variant: the call with all defaults, every value of every optional parameter one at a
+    time, and the full product of the seven headline options (preserve nozeros method recursive check builtins
+    masked); quick samples the products"""
     cases = []
     thorough = tier == 'thorough'
-    for cn, name, kws, req in methods():
-        combos = list(itertools.product(*[range(len(OPTVALS[k])) for k in kws]))
+    for cn, name, static, opts, req in methods():
+        head = [(k, n) for k, n in opts if k in KWNAMES]
+        singles = [()] + [((k, i),) for k, n in opts for i in range(n)]
+        prods = [tuple(zip([k for k, _ in head], combo))
+                 for combo in itertools.product(*[range(n) for _, n in head])] if len(head) > 1 else []
         for vi in range(len(VARIANTS)):
-            mine = combos if thorough or len(combos) <= 4 else rng.sample(combos, 4)
-            if not thorough and rng.random() < 0.4:
+            if not thorough and rng.random() < 0.5:
                 continue
-            for combo in mine:
-                cases.append({'mut': 'kw', 'faults': [], 'cls': cn, 'meth': name, 'kws': kws, 'opt': list(combo), 'req': req,
-                              'variant': vi, 'name': '%s.%s(%s)|v%d' % (cn, name, ','.join('%s=%d' % (k, i) for k, i in zip(kws, combo)), vi)})
+            mine = list(singles)
+            extra = [p for p in prods if p not in mine]
+            mine += extra if thorough or len(extra) <= 3 else rng.sample(extra, 3)
+            if not thorough and len(mine) > 8:
+                mine = [mine[0]] + rng.sample(mine[1:], 7)
+            for setting in mine:
+                cases.append({'mut': 'kw', 'faults': [], 'cls': cn, 'meth': name, 'static': static,
+                              'setting': [list(x) for x in setting], 'req_names': req, 'variant': vi,
+                              'name': '%s.%s(%s)|v%d' % (cn, name, ','.join('%s=%d' % (k, i) for k, i in setting), vi)})
     for cn, what in SPECIAL:
         for vi in range(len(VARIANTS)):
             cases.append({'mut': 'kw', 'faults': [], 'cls': cn, 'meth': what, 'special': True, 'variant': vi,
                           'name': '%s.%s|v%d' % (cn, what, vi)})
-    for c in cases:
-        c['req_names'] = c.pop('req', [])
     return cases
 
 
 def call(case):
     if case.get('special'):
         return special(case['cls'], case['meth'], case['variant'])
-    obj = make(case['cls'], VARIANTS[case['variant']])
-    args = [required_value(n, obj, case['cls']) for n in case['req_names']]
-    kw = {k: OPTVALS[k][i] for k, i in zip(case['kws'], case['opt'])}
-    return getattr(obj, case['meth'])(*args, **kw)
+    cn = case['cls']
+    obj = make(cn, VARIANTS[case['variant']])
+    args = [required_value(n, obj, cn) for n in case['req_names']]
+    f = getattr(all_classes()[cn], case['meth']) if case['static'] else getattr(obj, case['meth'])
+    sig = inspect.signature(f).parameters
+    kw = {}
+    for k, i in case['setting']:
+        kw[k] = resolve(cn, k, option_values(cn, k, sig[k].default, case['meth'])[i])
+    return f(*args, **kw)
 
 
 def observe(case):
@@ -185,10 +278,8 @@ def observe(case):
         try:
             call(case)
             return 'ok', None
-        except KeyError as e:
-            if case.get('special') is None and e.args and e.args[0] in case['req_names']:
-                return 'skipped', None                  # no value known for a required parameter
-            return 'Other:KeyError', str(e)[:120]
+        except _NoValue:
+            return 'skipped', None                      # no value known for a required parameter
         except Exception as e:
             return R.exc_class(e) if not isinstance(e, Warning) else 'Warn:' + type(e).__name__, (type(e).__name__ + ': ' + str(e))[:160]
 
